@@ -355,6 +355,10 @@ def explore(modname, engine, tier, seed, nproc=NPROC):
             results[idx] = r
     for idx in sorted(results):
         total.merge(results[idx])
+    if engine.kind == "E3" and total.states == 0:
+        # exhaustive exploration of a toy instance: every executed tuple is a state of that instance
+        total.states = total.evaluations
+        total.transitions = total.evaluations
     rep = {
         "engine": engine.name,
         "kind": engine.kind,
